@@ -166,6 +166,7 @@ def one_case(ctx, dt, kw, relativedelta):
 
 
 def run(ctx):
+    _repo_tests(ctx)
     from dateutil import relativedelta as mod
     if not rd_ref.selftest():
         ctx.inconclusive_because('rd_ref self-test failed')
@@ -235,6 +236,13 @@ def directed(ctx, mod):
         one_case(ctx, D.date(1, 1, 1), kw, R)
         one_case(ctx, D.datetime(9999, 12, 31, 23, 59, 59, 999999), kw, R)
         ctx.count('directed_range')
+
+
+def _repo_tests(ctx):
+    # thorough tier: the repository's own tests as one more workload under the same monitors
+    if ctx.tier == 'thorough' and ctx.shard == 0:
+        from vf import repo_tests
+        repo_tests.run_under_monitors(ctx, ['rd'], 'C03')
 
 
 def floors(agg, tier):
